@@ -31,6 +31,14 @@ def correspondence(ctx):
             ins = ",".join(str(rng.choice([1, 7, 100, 4096, 65536, 131072, 200000, 1000000])) for _ in range(rng.randint(1, 4)))
             outs = ",".join(str(rng.choice([1, 50, 4096, 131072, 1000000])) for _ in range(rng.randint(1, 3)))
             dirs = "".join(rng.choice("ccfffe") for _ in range(rng.randint(1, 6)))
+        if i % 25 == 6:
+            # worker threads, many small flushes while the caller offers NO output room (jobs pile up until the job table is full), then room
+            kind, x = datagen.gen(rng, rng.choice([60000, 120000, 200000]))
+            x = (x * (1 + 60000 // max(1, len(x))))[:200000]
+            p = {100: rng.choice([1, 1, 3]), 400: rng.choice([1, 1, 2, 3])}
+            if rng.random() < 0.3: p[201] = 1
+            ins = str(rng.choice([1000, 4000, 4000, 9000])); k_ = rng.choice([4, 5, 6, 7, 9, 12])
+            outs = ",".join(["0"] * k_ + [rng.choice(["1000000", "1000000", "512"])]); dirs = "f"; mt = True
         lines.append("cstream %s %s %s %s %s" % (frames.pstr(p), frames.hx(x), ins, outs, dirs)); cases.append(x)
     out = frames.parallel(lambda ch: frames.run_lines(exe, ch, timeout=1800)[1], frames.split_chunks(lines, 8))
     ev, nflush = 0, 0
@@ -82,7 +90,8 @@ def correspondence(ctx):
                     parts.append(fb); content += x
         if parts:
             comps.append((b"".join(parts), content))
-    hl = ["dechint %d %s %d" % (len(c), frames.hx(f), rng.choice([1 << 24, 7, 333, 4096, 40000, 131072])) for f, c in comps]
+    # (a third of them with decompression parameters set: checksum verification off, small block-size limit hint, ...: pacing must not change)
+    hl = ["dechint %d %s %d%s" % (len(c), frames.hx(f), rng.choice([1 << 24, 7, 333, 4096, 40000, 131072]), rng.choice(["", "", " dp=1002=1", " dp=1002=1", " dp=1004=1"])) for f, c in comps]
     hres = frames.parallel(lambda ch: frames.run_lines(exe, ch, timeout=1800)[1], frames.split_chunks(hl, 16))
     hm = frames.parallel(lambda ch: frames.model_lines(ch), frames.split_chunks(["hintsm %d %s" % (len(c), frames.hx(f)) for f, c in comps], 16))
     hw = frames.parallel(lambda ch: frames.run_lines(exe, ch)[1], frames.split_chunks(["xxh " + frames.hx(c) for f, c in comps], 16))
@@ -91,7 +100,7 @@ def correspondence(ctx):
         rep = dict(kind="monitor", op=ln[:400000], result=r[:300], model_hints=mm)
         if not r.startswith("ok") or "overask=1" in r or ("consumed=%d " % len(f)) not in r or "lastret=0" not in r or " ".join(r.split()[:3]) != ww:
             ctx.violation("decoder fed exactly the sizes it asks for did not consume exactly the frames: %s (stream of %d bytes)" % (r[:200], len(f)), rep)
-        elif ln.endswith(" %d" % (1 << 24)) and mm.startswith("ok"):
+        elif (" %d" % (1 << 24)) in ln[-24:] and mm.startswith("ok"):
             got = r.split("hints=")[1].split()[0].split(",")
             exp = mm[3:].split(",")
             if got[:len(exp)] != exp[:len(got)]:
